@@ -10,7 +10,7 @@ TIME_BUDGET = {'quick': 900, 'thorough': 3300}
 OPTS = {'quick': {'hash_order': 'insertion', 'step_budget': 3000000}, 'thorough': {'hash_order': 'insertion', 'step_budget': 8000000}}
 VALIDATION_ALLOW_FORKS = True
 BOUNDS = {
-    'quick': 'corpora of 1-2 lines with 1-3 words of 1-4 symbolic letters (at most 6 letters in total) over {a, b, c} (so that pairs overlap, repeat inside '
+    'quick': 'corpora of 1-2 lines (two layouts of 3 lines) with 1-3 words of 1-4 symbolic letters (at most 6 letters in total) over {a, b, c} (so that pairs overlap, repeat inside '
              'words and the corpus is exhausted before the requested number of merges); requested merges 0-5 (vocab_size 320, '
              'num_special_tokens 59-64) and vocab_size 256; normalization None; 1 or 2 counting threads (sequentialised, message '
              'order arbitrary); corpora spread over 1-2 files with max_lines_per_file 1 or 2 (five layouts of 2-3 lines)',
@@ -30,6 +30,7 @@ def shapes(tier):
     out = []
     layouts = [[[1]], [[2]], [[3]], [[2, 1]], [[2], [2]], [[3], [1]], [[3, 2]], [[1], [3]], [[4]], [[2, 2]], [[3], [2]], [[2, 1], [2]],
                [[1, 1, 1]], [[1, 1, 1], [2]], [[1, 2, 2]], [[2, 2, 2]]]
+    layouts += [[[1], [1], [1]], [[2], [1], [2]]]      # three lines for two counting threads (a share that does not divide)
     if tier != 'quick':
         layouts += [[[3], [3]], [[2], [2], [2]], [[4, 2]], [[5]], [[3, 3]], [[4], [3]], [[2, 2], [2, 1]]]
     for lay in layouts:
